@@ -14,9 +14,103 @@ UNITS = {
     'units_rng_gcc': dict(name='units_rng_gcc', source='harness/units_rng.cpp', cxx='g++', sanitize=False, opt='-O2'),
 }
 
+# ---- machine zoo (tools/structgen.py grammar) ---------------------------------------------------
+
+ZOO = {
+    'z01_kitchen':   'C[C[..R[...]]O[S[..]U[...]N[..].]c[..]C[C[.C[..]].]]',     # every region kind, headless region, nesting depth 4
+    'z02_noortho':   'C[R[..S[...]]U[.N[..].]c[.r[..]]S[..]]',                    # no orthogonal region: second registry specialisation
+    'z03_orthoroot': 'O[C[..]R[...]o[.C[..]]U[..]]',                              # orthogonal root, nested headless orthogonal
+    'z04_nested':    'C[S[C[..]R[..]]U[C[..]N[..]S[..]]N[R[..]U[..]O[.C[..]]]]',  # regions as sub-states of select/utilize/random regions
+    'z05_tiny':      'c[..]',                                                     # PeerRoot<A,B>: request queue of one
+    'z06_plans':     'C[C[...]O[C[..]C[..].]C[.C[..]]]',                          # plan-owning regions nested in composite and orthogonal regions
+    'z07_utility':   'U[N[...]U[..]n[..]u[...]O[U[..]N[..]]]',                    # utilitarian root, ranks and utilities everywhere, headless utility regions
+    'z08_wide':      'C[O[........]O[.........]R[.....]]',                        # orthogonal regions of 8 and 9 (bit units cross a byte), width 5
+    'z09_headless':  'c[r[..]o[s[..]u[..]]n[..]]',                                # every region headless
+    'z10_roots_r':   'R[C[..]R[..].]',                                            # resumable root
+    'z11_roots_n':   'N[.C[..]R[..]]',                                            # random root (first activation draws)
+    'z12_roots_s':   's[.C[..]O[..]]',                                            # headless selectable root
+}
+
+
+def walker(machine, cfg=''):
+    """cfg letters: m manual activation, b bottom-up reactions, r built-in RNG, v verbose logging, p1/p2/p3 payload int/struct32/aligned16,
+    s2 substitution limit 2, t5 task capacity 5"""
+    d = ['HV_MACHINE_HEADER="%s.hpp"' % machine]
+    i = 0
+    while i < len(cfg):
+        c = cfg[i]
+        if c == 'm': d.append('HV_MANUAL')
+        elif c == 'b': d.append('HV_BOTTOMUP')
+        elif c == 'r': d.append('HV_RNG_BUILTIN')
+        elif c == 'v': d.append('HV_VERBOSE_LOG')
+        elif c == 'p': d.append('HV_PAYLOAD=%s' % cfg[i + 1]); i += 1
+        elif c == 's': d.append('HV_SUBST_LIMIT=%s' % cfg[i + 1]); i += 1
+        elif c == 't': d.append('HV_TASK_CAP=%s' % cfg[i + 1]); i += 1
+        i += 1
+    name = 'walk_%s_%s' % (machine, cfg or 'a')
+    return dict(name=name, source='harness/hv_walk.cpp', defines=d, machine=(machine, ZOO[machine]))
+
+
+# the quick-tier walker set: every structure once with manual activation + configuration variations
+WALKERS = [
+    walker('z01_kitchen', 'm'), walker('z01_kitchen', 'bp1'), walker('z01_kitchen', 'mvs2'),
+    walker('z02_noortho', 'm'), walker('z02_noortho', 'bp2'),
+    walker('z03_orthoroot', 'm'), walker('z03_orthoroot', ''),
+    walker('z04_nested', 'm'), walker('z04_nested', 'p3'),
+    walker('z05_tiny', 'm'), walker('z05_tiny', 'p1s2'),
+    walker('z06_plans', 'm'), walker('z06_plans', 'bt5'),
+    walker('z07_utility', 'm'), walker('z07_utility', 'r'),
+    walker('z08_wide', 'm'),
+    walker('z09_headless', 'm'),
+    walker('z10_roots_r', 'm'), walker('z11_roots_n', ''), walker('z11_roots_n', 'mr'), walker('z12_roots_s', 'm'),
+]
+for w in WALKERS:
+    UNITS[w['name']] = w
+WALKER_NAMES = [w['name'] for w in WALKERS]
+
+
+def walk_jobs(names, cases, size, args=None):
+    return [dict(bin=n, cases=cases, size=size, args=list(args or [])) for n in names]
+
+
 # ---- properties --------------------------------------------------------------------------------
 
 PROPS = {
+    'C01': dict(
+        level='exploration', bins=WALKER_NAMES,
+        quick=walk_jobs(WALKER_NAMES, 6000, 40), thorough=walk_jobs(WALKER_NAMES, 20000, 60),
+        claim='The configuration invariant (root active iff activated, active only under an active parent, exactly one active sub-state per active composite region named by activeSubState(), all sub-states of an active orthogonal region active) is evaluated from the public answers after every API call and, through the Control object, inside every update/react/query/guard callback, over generated histories on 12 machine structures x several configurations, ASan+UBSan, library assertions live.',
+        note='Trusted: the generated structure table (independent DFS of tools/structgen.py). Not evaluated inside enter/exit/reenter and select/rank/utility (the statement excludes the middle of applying a transition).',
+        technique='stateful property-based testing (rapidcheck): invariant over generated API/callback histories',
+    ),
+    'C02': dict(
+        level='exploration', bins=WALKER_NAMES,
+        quick=walk_jobs(WALKER_NAMES, 6000, 40), thorough=walk_jobs(WALKER_NAMES, 20000, 60),
+        claim='After every processing step the active and resumable configuration read through isActive/isResumable is compared with a reference model of the transition rules (written from the property statement over the generated structure table), applied to the approved guard rounds observed in the trace; reset() and first activation are compared with the model\'s initial activation; queued requests and query() must change nothing.',
+        note='Trusted: the reference model (hv_model.hpp). Batches whose requests overlap (one request re-targets an ancestor region of another) are checked for the postcondition only (destination of the last request and its ancestors active); agreement with the sequential model on them is reported as a statistic.',
+        technique='model-based differential testing (rapidcheck) against a reference interpreter of the transition rules',
+    ),
+    'C03': dict(
+        level='exploration', bins=WALKER_NAMES,
+        quick=walk_jobs(WALKER_NAMES, 6000, 40), thorough=walk_jobs(WALKER_NAMES, 20000, 60),
+        claim='A history invariant over the recorded callback trace of every instance: enter/exit alternate per state starting with enter, every other callback only reaches entered states, parents are entered before and exited after their sub-states, the entered set equals the active set after every API call, nothing stays entered after exit()/destruction, and every callback ran on the object access<State>() returns.',
+        note='Does not judge whether a region re-targeted in place is re-entered or exited and entered. Anonymous heads have no callbacks and are skipped.',
+        technique='stateful property-based testing (rapidcheck): history invariant over callback traces',
+    ),
+    'C04': dict(
+        level='exploration', bins=WALKER_NAMES,
+        quick=walk_jobs(WALKER_NAMES, 6000, 40), thorough=walk_jobs(WALKER_NAMES, 20000, 60),
+        claim='Guard rounds are segmented from the trace (scripted guards cancel and/or substitute requests of any kind): lifecycle callbacks only after the last guard, exit guards before entry guards, every guard sees the pending list that was requested for its round, every state that is exited/entered/re-entered had its guard invoked in the last approved round, an all-vetoed step leaves active and resumable configuration unchanged (apart from schedule marks), the final configuration equals the model applied to approved rounds only, and there are at most SUBSTITUTION_LIMIT rounds (limits 2 and 4).',
+        note='Round boundaries are detected from control.requests().count() inside guards. Trusted: the reference model for the final configuration.',
+        technique='stateful property-based testing (rapidcheck) with scripted guards; trace invariants + model differential',
+    ),
+    'C11': dict(
+        level='exploration', bins=WALKER_NAMES, hang_is_violation=True,
+        quick=walk_jobs(WALKER_NAMES, 6000, 40), thorough=walk_jobs(WALKER_NAMES, 20000, 60),
+        claim='All generated histories (including bursts of requests beyond the queue capacity from outside and from callbacks, task appends beyond capacity, endless substitution) run under ASan+UBSan with the library\'s own assertions routed to a handler: no sanitizer report, no assertion, the configuration stays well-formed after over-capacity bursts.',
+        note='Known findings F14 and F23 (assertions reachable through the public API) are tolerated only in the exact situation described in KNOWN_FINDINGS.txt. "Never allocates" is observed through an operator-new counter around library calls on the explored paths.',
+        technique='fuzzing-style property testing under sanitizers with live assertions (rapidcheck; libFuzzer in the thorough tier)',
+    ),
     'C18': dict(
         level='exploration',
         claim='Randomised op sequences on BitArrayT<N> (16 capacities, views, static and dynamic indices) and (width,value) sequences on bit streams (5 capacities, 8 start alignments) are compared with vector<bool> / value-list models after every op, under ASan+UBSan with the library assertions live. Exploration only: absence of violations is claimed for the explored cases.',
